@@ -244,17 +244,18 @@ def make_key(tokens, form):
 
 
 def faulty_key(tokens, k, kind):
+    """Key iterable failing at position k. For 'unhashable_token' it first hands
+    over an unhashable token; an implementation that hashes its tokens rejects
+    it there, one that does not (children kept in a list) reads on and then gets
+    the caller's failure — either way the assignment fails."""
+
     def gen():
         for i, t in enumerate(tokens):
             if i == k:
-                if kind == "unhashable_token":
-                    yield ["unhashable"]
-                    raise HarnessError("trie accepted an unhashable token")
-                raise SimFault("key iterable failed after %d tokens" % k)
+                break
             yield t
         if kind == "unhashable_token":
             yield ["unhashable"]
-            raise HarnessError("trie accepted an unhashable token")
         raise SimFault("key iterable failed after %d tokens" % k)
 
     return gen()
@@ -461,7 +462,7 @@ class Run(object):
                     # the caller's own exception must come back to the caller
                     self.expect("failed_assignment_propagates", "set_fault", outcome, "SimFault", {"key": ev["key"], "k": k, "attempt": attempt})
                 elif outcome == "returned":
-                    raise HarnessError("an unhashable token was accepted")
+                    raise HarnessError("an assignment whose key iterable raised returned normally")
             # the model is unchanged
             self.sweep("set_fault")
         elif op in ("get", "get_default", "getitem", "lmpv"):
